@@ -8,6 +8,8 @@ One case = one call of one function of porepy/grids/partition.py on a generated 
   pgrid          partition_grid(g, ind)
   pcoord         partition_coordinates(g, n)                (box search compared with the exact-rational model away from knife edges)
   dcd            determine_coarse_dimensions(n, fine)       (1-4 axes, compared exactly with the integer model)
+  s2g            subgrid_to_grid_mapping(g, loc_faces, loc_cells, is_vector, nd)
+  pwrap          partition(g, n)                            (wrapper: tensor grid -> partition_structured, else partition_coordinates)
   connected      grid_is_connected(g, cells)                (oracle only: networkx)
 Index outputs are compared exactly with the Lean model (PorepyVerif/C22/Model.lean); the oracle checks the
 property on the real code, including the recomputed geometry of the extracted grid.
@@ -44,6 +46,12 @@ THEOREMS = [
     "PorepyVerif.C22.coarse_dimensions_in_range",
     "PorepyVerif.C22.partition_structured_num_part",
     "PorepyVerif.C22.partition_coordinates_total",
+    "PorepyVerif.C22.extract_geometry_local",
+    "PorepyVerif.C22.expand_indices_spec",
+    "PorepyVerif.C22.subgrid_to_grid_answers",
+    "PorepyVerif.C22.hypotheses_decidable",
+    "PorepyVerif.C22.partition_structured_answers_iff",
+    "PorepyVerif.C22.partition_wrapper_tensor",
 ]
 LEAN_MODULES = ["PorepyVerif.C22.Props"]
 AUDIT = "PorepyVerif/C22/Audit.lean"
@@ -92,6 +100,11 @@ EXPLANATION = (
     "node order per face and the same signed cell-face entries for the selected cells (this is what the Lean theorem proves), the recomputed values are the same arithmetic on the same "
     "numbers; the only non-local ingredient is the unit plane normal of a 2-d grid (sum over all cells, normalised), equal up to rounding, and the sign flip of a face normal, fixed by the "
     "cell_faces signs which are preserved. The oracle recomputes the geometry of every extracted grid and compares volumes, centers, areas, face centers and outward normals to 1e-12. "
+    "Clause map: 'index maps point to the matching parent entities' = extract_maps_point_to_parent (+ extract_faces_* for faces=True, expand_indices_spec/subgrid_to_grid_answers for subgrid_to_grid_mapping); "
+    "'recomputed geometry equals the parent's' = extract_geometry_local (identical geometric input of every face and cell; that compute_geometry is a function of that input stays oracle-checked to 1e-12); "
+    "'every cell exactly one part within range' = partition_structured_total/in_range/answers_iff, partition_structured_num_part, partition_wrapper_tensor, partition_coordinates_total, partition_grid_cells_once; "
+    "'overlap only grows and contains all neighbours' = overlap_monotone, overlap_contains_neighbours (+ layer_exact, zero_id). The hypotheses 1 <= coarse <= fine and 'centres inside the node extent' are "
+    "decidable (hypotheses_decidable) and evaluated by the driver on every case. "
     "Genuine defect found by this check and repaired in /repo (f7a883320): partition_structured raised UnboundLocalError on 1-d tensor grids (regression case in corpus)."
 )
 ASSUMPTIONS = [
@@ -101,7 +114,7 @@ ASSUMPTIONS = [
 
 warnings.simplefilter("ignore")
 
-KINDS = ("extract", "extract_faces", "pstruct", "overlap", "pgrid", "pcoord", "connected", "dcd")
+KINDS = ("extract", "extract_faces", "pstruct", "overlap", "pgrid", "pcoord", "connected", "dcd", "s2g", "pwrap")
 
 
 # ----------------------------------------------------------------------------- grids
@@ -145,6 +158,8 @@ def build_grid(spec):
     if aff:
         A = np.array([[float(Fraction(x)) for x in row] for row in aff])
         g.nodes[:nd] = A @ g.nodes[:nd]
+    if spec.get("scale"):
+        g.nodes[:nd] *= 2.0 ** spec["scale"]  # exact in binary64
     g.compute_geometry()
     return g
 
@@ -196,6 +211,8 @@ def gen_grid(rng, tier, kinds=("cart2", "cart3", "tri", "tet", "frac2", "frac3",
             for j in range(i):
                 A[i][j] = Fraction(rng.randint(-2, 2), 4)
         spec["aff"] = [[str(x) for x in row] for row in A]
+    if rng.random() < 0.07:
+        spec["scale"] = rng.choice([-20, -8, 12, 24])
     if spec["type"] in ("tri", "tet") or (spec["type"] == "cart" and nd == 2) or nd == 1:
         if rng.random() < 0.6:
             spec["jit"] = (rng.choice([2, 4, 6]) if spec["type"] == "tet" else rng.choice([3, 6, 12])) if nd > 1 else rng.choice([3, 12, 20])
@@ -253,19 +270,22 @@ def _coplanar_faces(rng, g):
     ok = []
     for f in np.where(par)[0]:
         nodes = fn.indices[fn.indptr[f]:fn.indptr[f + 1]]
-        if np.all(np.abs(n0 @ g.nodes[:, nodes] - d0) < 1e-9):
+        if np.all(np.abs(n0 @ g.nodes[:, nodes] - d0) < 1e-9 * max(1.0, float(np.max(np.abs(g.nodes))))):
             ok.append(int(f))
+    ok = ok or [f0]
     k = rng.randint(1, len(ok))
     return sorted(rng.sample(ok, k))
 
 
 def gen_case(rng, tier):
-    kind = rng.choices(KINDS, weights=[32, 12, 18, 18, 6, 5, 3, 12])[0]
+    kind = rng.choices(KINDS, weights=[29, 12, 15, 15, 6, 6, 3, 10, 9, 5])[0]
     if kind == "extract":
         spec = gen_grid(rng, tier)
         g = build_grid(spec)
         cells, style = gen_cells(rng, g)
         case = {"kind": kind, "grid": spec, "cells": cells, "sort": True, "style": style}
+        if rng.random() < 0.15:
+            case["repeat"] = True  # the oracle calls twice on the same parent object: same answer, parent untouched
         r = rng.random()
         if r < 0.10:
             case["mask"] = [c in set(cells) for c in range(g.num_cells)]
@@ -304,7 +324,38 @@ def gen_case(rng, tier):
             rng.shuffle(case["faces"])  # sort=True puts them back in order
         if rng.random() < 0.03:
             case["faces"] = case["faces"] + [g.num_faces]
+        elif rng.random() < 0.12 and g.dim > 1:
+            fs = set(case["faces"])
+            case["mask"] = [f in fs for f in range(g.num_faces)]
+            case["faces"] = sorted(fs)
+            if rng.random() < 0.2:
+                case["mask"] = case["mask"][:-1]
         return case
+    if kind == "s2g":
+        spec = gen_grid(rng, tier)
+        g = build_grid(spec)
+        cells, style = gen_cells(rng, g, allow_empty=False)
+        case = {"kind": kind, "grid": spec, "cells": cells, "nd": rng.choice([None, None, 1, 2, 3]), "vector": rng.random() < 0.6, "style": "ok"}
+        r = rng.random()
+        if r < 0.08:
+            case["bad"] = "face"    # a local face index beyond the parent
+            case["style"] = "out-of-range"
+        elif r < 0.14:
+            case["bad"] = "cell"
+            case["style"] = "out-of-range"
+        elif r < 0.40:
+            case["style"] = "permuted"  # loc arrays in permuted order (the function does not require sorted input)
+        elif r < 0.46:
+            case["style"] = "duplicates"
+        return case
+    if kind == "pwrap":
+        if rng.random() < 0.7:
+            nd = rng.choice([1, 2, 2, 3])
+            hi = {1: 14, 2: 9, 3: 5}[nd]
+            spec = {"type": "cart", "dims": [rng.choice([1, 2, rng.randint(1, hi), hi]) for _ in range(nd)]}
+        else:
+            spec = gen_grid(rng, tier, kinds=("tri", "tet", "cart2", "frac2"))
+        return {"kind": kind, "grid": spec, "num": rng.choice([1, 2, 3, 4, 6, 9, 25, 1000])}
     if kind == "dcd":
         nd = rng.choice([1, 2, 2, 3, 3, 3, 4])
         hi = {1: 40, 2: 20, 3: 9, 4: 4}[nd]
@@ -389,6 +440,30 @@ def _call_extract(P, g, case):
     return P.extract_subgrid(g, c, sort=case["sort"])
 
 
+def _faces_arg(case):
+    return np.array(case["mask"], dtype=bool) if "mask" in case else np.array(case["faces"], dtype=int)
+
+
+def _s2g_args(g, case):
+    """loc_faces / loc_cells of a sub-grid extracted from g (real extract_subgrid), then distorted per the case's stratum"""
+    from porepy.grids import partition as P
+
+    _, fm, _ = P.extract_subgrid(g, np.array(case["cells"], dtype=int))
+    lf, lc = _ints(fm), sorted(case["cells"])
+    r = random.Random(str(case["cells"]))
+    if case.get("style") == "permuted":
+        r.shuffle(lf)
+        r.shuffle(lc)
+    elif case.get("style") == "duplicates":
+        lf = lf + lf[:1]
+        lc = lc + lc[-1:]
+    if case.get("bad") == "face":
+        lf = lf + [g.num_faces]
+    if case.get("bad") == "cell":
+        lc = [g.num_cells + 1] + lc
+    return lf, lc
+
+
 def _coarse_for(case):
     """coarse dims of a pstruct case: given, or what the REAL determine_coarse_dimensions returns (trusted, see TRUSTED)"""
     from porepy.grids import partition as P
@@ -432,6 +507,28 @@ def impl_run(case):
             return {"part": _ints(P.partition_coordinates(g, case["num"], check_connectivity=False))}
         except Exception as e:
             return err_kind(e)
+    if kind == "s2g":
+        g = build_grid(case["grid"])
+        lf, lc = _s2g_args(g, case)
+        nd = case["nd"] if case["nd"] is not None else g.dim
+        try:
+            fmap, cmap = P.subgrid_to_grid_mapping(g, np.array(lf, dtype=int), np.array(lc, dtype=int), case["vector"], case["nd"])
+        except Exception as e:
+            return err_kind(e)
+        k = nd if case["vector"] else 1
+        if fmap.shape != (g.num_faces * k, len(lf) * k) or cmap.shape != (len(lc) * k, g.num_cells * k):
+            return {"shape": [list(fmap.shape), list(cmap.shape)]}
+        fc, cc = fmap.tocoo(), cmap.tocoo()
+        if not (np.all(fc.data == 1) and np.all(cc.data == 1)):
+            return {"data": "not all ones"}
+        return {"face_rows": [int(r) for _, r in sorted(zip(fc.col.tolist(), fc.row.tolist()))],
+                "cell_cols": [int(c) for _, c in sorted(zip(cc.row.tolist(), cc.col.tolist()))]}
+    if kind == "pwrap":
+        g = build_grid(case["grid"])
+        try:
+            return {"part": _ints(P.partition(g, case["num"]))}
+        except Exception as e:
+            return err_kind(e)
     if kind == "dcd":
         try:
             return {"coarse": _ints(P.determine_coarse_dimensions(max(case["target"], 0), np.array(case["grid"]["dims"])))}
@@ -443,7 +540,7 @@ def impl_run(case):
             h, fm, nm = _call_extract(P, g, case)
             return _sub_out(h, fm, nm)
         if kind == "extract_faces":
-            h, f, nm = P.extract_subgrid(g, np.array(case["faces"], dtype=int), sort=case["sort"], faces=True, is_planar=case["planar"])
+            h, f, nm = P.extract_subgrid(g, _faces_arg(case), sort=case["sort"], faces=True, is_planar=case["planar"])
             out = {"faces": _ints(f), "node_map": _ints(nm)}
             if g.dim > 1:
                 out["cf"] = [[list(p) for p in col] for col in _sorted_cols(_cols(h.cell_faces), _dat(h.cell_faces))]
@@ -479,6 +576,18 @@ def model_ops(case):
         cc, lo, hi, delta, delta_int = _pcoord_inputs(g, case["num"])
         return [{"op": "pcoord", "lo": fracs(lo), "hi": fracs(hi), "num": case["num"], "delta_int": delta_int,
                  "cc": [fracs(cc[:, i]) for i in range(cc.shape[1])]}]
+    if kind == "s2g":
+        g = build_grid(case["grid"])
+        lf, lc = _s2g_args(g, case)
+        nd = case["nd"] if case["nd"] is not None else g.dim
+        return [{"op": "s2g", "num_faces": g.num_faces, "num_cells": g.num_cells, "loc_faces": lf, "loc_cells": lc, "nd": nd if case["vector"] else 1}]
+    if kind == "pwrap":
+        g = build_grid(case["grid"])
+        if hasattr(g, "cart_dims"):
+            return [{"op": "pwrap", "num": case["num"], "fine": _ints(g.cart_dims)}]
+        cc, lo, hi, delta, delta_int = _pcoord_inputs(g, case["num"])
+        return [{"op": "pcoord", "lo": fracs(lo), "hi": fracs(hi), "num": case["num"], "delta_int": delta_int,
+                 "cc": [fracs(cc[:, i]) for i in range(cc.shape[1])]}]
     if kind == "dcd":
         return [{"op": "dcd", "target": max(case["target"], 0), "fine": case["grid"]["dims"]}]
     if kind == "pstruct":
@@ -493,6 +602,8 @@ def model_ops(case):
             return [dict(t, op="extract_mask", mask=case["mask"], sort=case["sort"])]
         return [dict(t, op="extract", cells=case["cells"], sort=case["sort"])]
     if kind == "extract_faces":
+        if "mask" in case and len(case["mask"]) != g.num_faces:
+            return [{"op": "extract_mask", "cf_faces": [], "cf_signs": [], "fn": [], "mask": [True], "sort": True}]  # IndexError branch
         return [{"op": "extract_faces", "fn": t["fn"], "faces": case["faces"], "dim": g.dim, "sort": case["sort"]}]
     if kind == "overlap":
         return [{"op": "overlap", "ce": cell_entities(g, norm_crit(case["criterion"])), "cells": case["cells"], "layers": case["layers"]}]
@@ -513,13 +624,26 @@ def model_decode(outs, case):
     return o
 
 
+HYP_COUNTS = {"dims_ok": 0, "dims_not_ok": 0, "centres_inside": 0, "centres_outside": 0}
 PCOORD_SKIPPED = [0, 0]  # [compared, skipped because a centre is within 1e-9 of a box boundary]
 
 
 def compare(impl, model, case):
     if case["kind"] == "connected":
         return None
-    if case["kind"] == "pcoord":
+    if case["kind"] == "pstruct" and isinstance(model, dict) and "hyp" in model:
+        model = dict(model)
+        hyp = model.pop("hyp")
+        HYP_COUNTS["dims_ok" if hyp else "dims_not_ok"] += 1
+        if hyp and not (isinstance(impl, dict) and "part" in impl):
+            return f"1 <= coarse <= fine holds (decided by the driver) but the real partition_structured did not answer: {impl}"
+        return deep_compare(impl, model)
+    if case["kind"] == "pwrap" and "res" not in model:
+        return deep_compare(impl, model)
+    if case["kind"] in ("pcoord", "pwrap"):
+        HYP_COUNTS["centres_inside" if model["hyp"] else "centres_outside"] += 1
+        if not model["hyp"]:
+            return "a cell centre lies outside the node extent [lo, hi): hypothesis of partition_coordinates_total fails on a generated grid"
         # the float code and the exact model may legitimately differ when a cell centre is within rounding distance of a box
         # boundary; such cases are not compared, unless the boundary is hit exactly and every box edge is binary64-exact
         margin = Fraction(model["margin"])
@@ -650,8 +774,15 @@ def _oracle_extract(P, g, case):
         cells = list(case["cells"])
         bad = any(c >= ncell for c in cells)
     dup = len(set(cells)) != len(cells)
+    before = (topo(g), g.nodes.copy(), g.cell_volumes.copy(), g.face_normals.copy()) if case.get("repeat") else None
     try:
         h, fm, nm = _call_extract(P, g, case)
+        if before is not None:
+            h_b, fm_b, nm_b = _call_extract(P, g, case)
+            if _sub_out(h, fm, nm) != _sub_out(h_b, fm_b, nm_b):
+                return _fail("extract_subgrid called twice on the same parent gave different sub-grids", "extract-not-repeatable")
+            if topo(g) != before[0] or not (np.array_equal(g.nodes, before[1]) and np.array_equal(g.cell_volumes, before[2]) and np.array_equal(g.face_normals, before[3])):
+                return _fail("extract_subgrid modified the parent grid", "extract-mutates-parent")
     except IndexError:
         return None if bad else _fail(f"extract_subgrid raised IndexError for valid cells {cells}", "extract-unexpected-IndexError")
     except ValueError:
@@ -666,10 +797,10 @@ def _oracle_extract(P, g, case):
 
 def _oracle_faces(P, g, case):
     faces = list(case["faces"])
-    bad = any(f >= g.num_faces for f in faces)
+    bad = any(f >= g.num_faces for f in faces) or ("mask" in case and len(case["mask"]) != g.num_faces)
     want_assert = g.dim == 1 and len(faces) != 1
     try:
-        h, f, nm = P.extract_subgrid(g, np.array(faces, dtype=int), sort=case["sort"], faces=True, is_planar=case["planar"])
+        h, f, nm = P.extract_subgrid(g, _faces_arg(case), sort=case["sort"], faces=True, is_planar=case["planar"])
     except IndexError:
         return None if bad else _fail(f"extract_subgrid(faces=True) raised IndexError for valid faces {faces}", "faces-unexpected-IndexError")
     except ValueError:
@@ -889,6 +1020,47 @@ def _oracle_connected(P, g, case):
     return None
 
 
+def _oracle_s2g(P, g, case):
+    lf, lc = _s2g_args(g, case)
+    nd = case["nd"] if case["nd"] is not None else g.dim
+    k = nd if case["vector"] else 1
+    try:
+        fmap, cmap = P.subgrid_to_grid_mapping(g, np.array(lf, dtype=int), np.array(lc, dtype=int), case["vector"], case["nd"])
+    except Exception as e:
+        if case.get("bad"):
+            return None
+        return _fail(f"subgrid_to_grid_mapping raised {type(e).__name__} for valid local faces/cells: {e}", f"s2g-{type(e).__name__}")
+    if case.get("bad"):
+        return _fail(f"subgrid_to_grid_mapping accepted a local {case['bad']} index beyond the parent grid", "s2g-no-error")
+    if case.get("style") == "duplicates":
+        return None
+    # maps point to the matching parent entities: pulling the parent's own numbering through the maps gives the expanded local lists
+    want_f = [k * f + d for f in lf for d in range(k)]
+    want_c = [k * c + d for c in lc for d in range(k)]
+    got_f = fmap.T @ np.arange(g.num_faces * k)
+    got_c = cmap @ np.arange(g.num_cells * k)
+    if not (np.array_equal(got_f, want_f) and np.array_equal(got_c, want_c)):
+        return _fail(f"subgrid_to_grid_mapping(vector={case['vector']}, nd={nd}): maps do not point to the parent entities (faces {got_f.tolist()} vs {want_f})", "s2g-wrong-map")
+    # restriction after prolongation is the identity on the sub-grid
+    if (cmap @ cmap.T != np.eye(len(lc) * k)).sum() or (fmap.T @ fmap != np.eye(len(lf) * k)).sum():
+        return _fail("subgrid_to_grid_mapping: restriction after prolongation is not the identity", "s2g-not-identity")
+    return None
+
+
+def _oracle_pwrap(P, g, case):
+    try:
+        p = np.asarray(P.partition(g, case["num"]))
+    except Exception as e:
+        return _fail(f"partition({case['grid']}, {case['num']}) raised {type(e).__name__}: {e}", f"pwrap-{type(e).__name__}")
+    if p.shape != (g.num_cells,) or np.any(p != np.round(p)) or p.min() < 0:
+        return _fail(f"partition({case['grid']}, {case['num']}): not one non-negative integer id per cell", "pwrap-unassigned")
+    if hasattr(g, "cart_dims") and sorted(set(int(x) for x in p)) != list(range(int(p.max()) + 1)):
+        return _fail(f"partition({case['grid']}, {case['num']}): ids {sorted(set(int(x) for x in p))} are not a full range", "pwrap-unused-ids")
+    if len(set(p.tolist())) > max(1, min(g.num_cells, 10**9)):
+        return _fail("partition: more parts than cells", "pwrap-too-many")
+    return None
+
+
 def _check_coarse(n, fine, coarse):
     nd = len(fine)
     if len(coarse) != nd or any(c < 1 or c > f for c, f in zip(coarse, fine)):
@@ -916,6 +1088,10 @@ def oracle(case):
     if case["kind"] == "dcd":
         return _oracle_dcd(P, case)
     g = build_grid(case["grid"])
+    if case["kind"] == "s2g":
+        return _oracle_s2g(P, g, case)
+    if case["kind"] == "pwrap":
+        return _oracle_pwrap(P, g, case)
     return {"extract": _oracle_extract, "extract_faces": _oracle_faces, "pstruct": _oracle_pstruct, "overlap": _oracle_overlap,
             "pgrid": _oracle_pgrid, "pcoord": _oracle_pcoord, "connected": _oracle_connected}[case["kind"]](P, g, case)
 
@@ -977,6 +1153,21 @@ def stats(cases, impl_outs):
     return {
         "kinds": kinds, "grid_types": gtypes, "errors": errs,
         "pcoord_compared_vs_skipped_knife_edge": list(PCOORD_SKIPPED),
+        "hypotheses_decided_by_driver": dict(HYP_COUNTS),
+        "strata": {
+            "size0_empty_cell_set": sum(1 for c in cases if c["kind"] in ("extract", "overlap") and not c.get("cells") and "mask" not in c),
+            "size1_single_cell_or_face": sum(1 for c in cases if len(c.get("cells") or c.get("faces") or []) == 1),
+            "one_cell_grid": sum(1 for c in cases if int(np.prod(c["grid"]["dims"])) == 1 and c["grid"]["type"] == "cart"),
+            "axis_of_length_1": sum(1 for c in cases if 1 in c["grid"]["dims"]),
+            "duplicates": sum(1 for c in cases if c.get("style") in ("duplicate", "duplicates") or (c["kind"] == "overlap" and len(set(c["cells"])) < len(c["cells"]))),
+            "unsorted_or_permuted": sum(1 for c in cases if "unsorted" in str(c.get("style")) or c.get("style") == "permuted" or (c["kind"] == "extract_faces" and c["faces"] != sorted(c["faces"]))),
+            "boolean_masks": sum(1 for c in cases if "mask" in c),
+            "out_of_range_or_wrong_size": sum(1 for c in cases if c.get("style") in ("out-of-range", "mask-size") or c.get("bad")),
+            "extreme_scale_affine": sum(1 for c in cases if c["grid"].get("scale")),
+            "degenerate_coarse_gt_fine_or_zero": sum(1 for c in cases if c["kind"] == "pstruct" and "coarse" in c and any(cc < 1 or cc > f for cc, f in zip(c["coarse"], c["grid"]["dims"]))),
+            "target_beyond_cell_count": sum(1 for c in cases if (c["kind"] == "pstruct" and c.get("num_part", 0) > int(np.prod(c["grid"]["dims"]))) or (c["kind"] == "dcd" and c["target"] > int(np.prod(c["grid"]["dims"]))) or (c["kind"] in ("pwrap", "pcoord") and c["num"] >= 25)),
+            "repeated_call_same_grid": sum(1 for c in cases if c.get("repeat")),
+        },
         "perturbed": sum(1 for c in cases if "jit" in c["grid"]), "affine": sum(1 for c in cases if "aff" in c["grid"]),
         "extract_styles": {s: sum(1 for c in cases if c["kind"] == "extract" and c.get("style") == s)
                            for s in sorted({c.get("style") for c in cases if c["kind"] == "extract"})},
